@@ -295,10 +295,10 @@ func (hs *history) restart(label string) bool {
 		if in.lastPlan.Frozen() && attempt < 3 {
 			// the planned crash hit the compaction that the start-up scan itself launched: one more crash
 			hs.armed = "none"
-			l2 := hs.classifyCrash() + "(during-start-up)"
-			hs.rec.Restarts = append(hs.rec.Restarts, fmt.Sprintf("%s@%d", l2, len(hs.ackSeq)))
-			r.Note("restarts", l2)
-			label = l2
+			label = hs.classifyCrash()
+			hs.rec.Restarts = append(hs.rec.Restarts, fmt.Sprintf("%s(during-start-up-scan)@%d", label, len(hs.ackSeq)))
+			r.Note("restarts", label)
+			r.Note("history_events", "crash-inside-the-compaction-launched-by-the-start-up-scan")
 			continue
 		}
 		r.Violation("unrecoverable/"+sigLabel(label), fmt.Sprintf("%s: after a restart (%s) with the meta index lost, the store cannot be created from the wrapped stores: %v (acknowledged blobs: %d)", hs.id, label, err, len(hs.acked)), hs.rec)
